@@ -370,6 +370,30 @@ def to_case_stream(ob):
 to_case_full = to_case_finalize = to_case_chunk = to_case_stream
 
 
+def to_case_full_c02(ob):
+    """compute_full under C02 is checked against the DEFINITION (frame count, frame ranges with reflection, coefficients), not against
+    streaming - a change that moves both the same way satisfies C01. Cases in the C02 stand-in's format: the model's geometry first,
+    then every small geometry (frame length <= 9, every shift) of the obligation's framing mode with signals around the frame-count
+    boundaries."""
+    from pyvc.solve import model_int
+    mode = _mode_of(ob)
+    if mode is None:
+        return None
+    L0, s0 = model_int(ob.model, "L"), model_int(ob.model, "s")
+    pairs = []
+    if L0 is not None and s0 is not None and 1 <= s0 <= L0 <= 64:
+        pairs.append((L0, s0))
+    pairs += [(L, s) for L in range(1, 10) for s in range(1, L + 1) if (L, s) not in pairs]
+    cases = []
+    for L, s in pairs:
+        base = {"frame_style": "causal" if mode == "causal" else "centered", "kaldi_shift": mode == "kaldi", "frame_length": L, "frame_shift": s,
+                "pad": False, "seed": 0}
+        for N in sorted({L // 2, L // 2 + 1, L, L + 1, 2 * L + s, 3 * L + 5}):
+            if N >= 1:
+                cases.append(dict(base, N=N))
+    return cases[:1200]
+
+
 # ------------------------------------------------------------------------------------------
 # frame_by_frame_calculation (C01 corollary, C04 refusal)
 # ------------------------------------------------------------------------------------------
